@@ -111,9 +111,12 @@ Print Assumptions C02_faithful_total.
 (* SOURCE-TRANSLATION TIE (round 3).  render_doc_src is the renderer assembled from Gen/RenderSrc.v, which
    gen/c02_pysrc.py regenerates from base.py on every run: copy_attributes (the loop over token.attrs),
    renderInlineAsText, render_paragraph / em / strong / code_inline / bullet_list / ordered_list / list_item /
-   blockquote / hr / hardbreak / softbreak / s / text / math_inline / link_url / image, statement by statement
-   (the other methods - heading, table, clean_astext, current_node_context, the dispatch loops - are pinned by
-   the hash of their source).  An edit of one of these Python methods changes the regenerated definition; the
+   blockquote / hr / hardbreak / softbreak / s / text / math_inline / link_url / image, clean_astext and the registry
+   part of generate_heading_target statement by statement; render_heading, update_section_level_state (the three
+   tests on the level map and the warning), render_table and render_table_row from statement templates whose
+   parameters (copied keys, classes, comparison operators, alignment styles) are read from the source; the methods
+   that are only transcribed by hand, the Sphinx overrides, the dispatch loops and the transforms are pinned by
+   the hash of their source.  An edit of one of these Python methods changes the regenerated definition; the
    equalities of Doc/RenderSrcProofs.v (regenerated = hand-written, by conversion) and hence this theorem are
    re-checked against it. *)
 Theorem C02_faithful_src : forall (D : str -> str) B C OR ts doc ws,
